@@ -214,6 +214,56 @@ def adev_sites(G, ctx):
         ctx.count("adev-sites-under-seed")
 
 
+def wrapped_sites(G, ctx):
+    """a site nested at depth 1..3 inside primitives the Seed interpreter re-binds unchanged (jax.checkpoint, custom_jvp): the seeded
+    function must behave the SAME eagerly and under jit - both refuse, or both return a value that depends on the key and is equal in
+    the two modes.  "Eager returns a draw that ignores the key while jit raises" is the failure (seeded C06_8 / C14_8)."""
+    import jax
+    import jax.numpy as jnp
+    import jax.random as jr
+    normal = G.normal
+
+    def site(x):
+        return normal.sample(x, 1.0)
+
+    def ck(f):
+        return jax.checkpoint(f)
+
+    def cj(f):
+        g = jax.custom_jvp(f)
+        g.defjvp(lambda p, t: (f(*p), t[0]))
+        return g
+    progs = {
+        "checkpoint(site)": ck(site),
+        "checkpoint(checkpoint(site))": ck(ck(site)),
+        "checkpoint(checkpoint(checkpoint(site)))": ck(ck(ck(site))),
+        "checkpoint(custom_jvp(site))": ck(cj(site)),
+        "checkpoint(lambda: custom_jvp(site) + site)": ck(lambda x: cj(site)(x) + site(x)),
+        "plain site (control)": site,
+    }
+    keys = [jr.key(ctx.seed + 5), jr.key(ctx.seed + 6), jr.key(ctx.seed + 7)]
+    for name, f in progs.items():
+        case = {"kind": "wrapped-sites", "program": name}
+        s_ = G.seed(lambda x, f=f: f(x) * 2.0)
+
+        def attempt(call):
+            try:
+                return ("value", [float(call(k, 0.25)) for k in keys])
+            except Exception as e:
+                impl.reset_handlers()
+                return ("raises", type(e).__name__)
+        eager, jitted = attempt(s_), attempt(jax.jit(s_))
+        if eager[0] != jitted[0]:
+            ctx.property_failure(None, f"{name}: eager seed(f) {eager} but jit(seed(f)) {jitted} - the two execution modes disagree", {**case, "eager": list(eager), "jit": list(jitted)})
+        elif eager[0] == "value":
+            if len(set(eager[1])) != len(keys):
+                ctx.property_failure(None, f"{name}: seeded runs with different keys return equal values {eager[1]} (the site ignores the key)", {**case, "values": eager[1]})
+            elif max(abs(a - b) for a, b in zip(eager[1], jitted[1])) > 1e-5:
+                ctx.property_failure(None, f"{name}: eager {eager[1]} != jit {jitted[1]}", case)
+        ctx.case(sample=case if "custom" in name else None, nontrivial_key=("wrapped-sites", name))
+        ctx.count("wrapped-sites:" + eager[0])
+
+
 def cache_histories(G, ctx, family, shard_i):
     """the staging caches observed through call histories over one long-lived sampler (harness/seedcache.py; Lean Model/SeedCache.lean)"""
     seedcache.check_family(G, ctx, family, random.Random(ctx.seed * 7919 + shard_i), 10 if ctx.thorough else 3)
@@ -227,6 +277,7 @@ def shard(ctx, shard_i, n):
         argument_kinds(G, ctx)
     if shard_i == 2:
         adev_sites(G, ctx)
+        wrapped_sites(G, ctx)
     if 3 <= shard_i < 3 + seedcache.N_FAMILIES:
         cache_histories(G, ctx, shard_i - 3, shard_i)
     if shard_i == 0:
@@ -255,6 +306,8 @@ def replay(ctx, payload):
         argument_kinds(G, ctx)
     elif c.get("kind") == "adev-sites-under-seed":
         adev_sites(G, ctx)
+    elif c.get("kind") == "wrapped-sites":
+        wrapped_sites(G, ctx)
     elif c.get("kind") == "cache-history":
         seedcache.replay_case(G, ctx, c)
     else:
